@@ -136,7 +136,9 @@ func init() {
 			}
 			return c
 		},
-		Oracles: []oracleFn{oC17},
+		// "processing never above the concurrency limit" is also judged on the harness's own count of
+		// invocations in progress (the C02 clauses), not only on NumProcessing readings
+		Oracles: []oracleFn{oC17, renamed("C17", "processing-above-limit:", oC02), renamed("C17", "processing-above-limit:", oC02Tune)},
 		Foreign: []oracleFn{oCrash("*"), oDeadlock("C03"), oLivelock("C03")},
 		NonTrivial: func(ix *Index) (bool, []string) {
 			cl := classesOf(ix)
